@@ -276,10 +276,10 @@ func (w *World) checkRootHandling(P string, f *Facts, r *Roles, ef *ExecFacts) {
 		}
 	}
 	w.floor(P, "R01.12", 12)
-	w.floor(P, "R01.5a", 6)
+	w.floorSites(P, "R01.5a", 6)
 	w.floor(P, "R01.5b", 2)
-	w.floor(P, "R01.5c", 4)
-	w.floor(P, "R01.6", 2)
+	w.floorSites(P, "R01.5c", 4)
+	w.floorSites(P, "R01.6", 2)
 }
 
 func types_isCursor(v ssa.Value, r *Roles) bool {
